@@ -22,8 +22,16 @@ class Context(object):
         self.project = Project(root)
         self.project.add_controls(os.path.join(VERIF, 'petlsa', 'controls'))
         self.res = Resolver(self.project)
+        from . import inline
+        self.inlined = inline.apply(self.project, self.res) if not os.environ.get('PETLSA_NO_INLINE') else (0, [])
+        if self.inlined[0]:
+            # resolution caches were filled while inlining: start from a clean resolver
+            self.res = Resolver(self.project)
         self.an = Analyzer(self.project, self.res)
         self.report = Report(prop, tier, root)
+        if self.inlined[0]:
+            self.report.note('expanded %d function(s) by inlining helpers unknown to the rules: %s'
+                             % (self.inlined[0], ', '.join(self.inlined[1])))
         self._views = None
 
     @property
@@ -35,7 +43,12 @@ class Context(object):
 
     def functions(self, prefixes=None, controls=None):
         """Functions of the real package whose module name starts with one of
-        `prefixes` (all when None), plus the control module(s) named."""
+        `prefixes` (all when None), plus the control module(s) named.  Helpers
+        that were inlined into their callers are judged there, not on their own."""
+        away = set(self.inlined[1])
+        return [f for f in self._functions(prefixes, controls) if f.fq not in away]
+
+    def _functions(self, prefixes=None, controls=None):
         out = []
         for m in self.project.modules.values():
             if m.name.startswith('petl._controls'):
